@@ -13,12 +13,12 @@ CLAIMED = {
          "pool of 5 events (2 I/O on pipes, 2 timers, 1 signal), 3 priorities; equal-deadline order left open", G, "6/C02"),
  "C03": ("EventCore", "model_checking",
          "PrioOrderInv, BreakStops, LaterPromoted decided by TLC; histories with callback scripts (break/continue/exit/activate/later/del/add from inside callbacks), all loop flag combinations and max_dispatch_callbacks x limit_callbacks_after_prio configurations replayed with exact callback order and loop return value compared.",
-         "max_dispatch_interval as a time limit not exercised; equal heap deadlines excluded when callbacks have side effects", G, "6/C03"),
+         "max_dispatch_interval: intervals of 0..3 ticks with callbacks that take 1-2 ticks of virtual time (cached loop time modelled); equal heap deadlines excluded when callbacks have side effects", G, "6/C03"),
  "C10": ("EventCore", "model_checking",
          "Finalizer/once-event life-cycle in the TLA+ model; histories with event_finalize/event_free_finalize/event_free/event_base_once and event_base_free (with and without finalizers) at every point, incl. from inside callbacks, replayed on the ASan build with every finalizer/callback invocation compared.",
          "events and once-events only (bufferevents: C19, listeners: C44); memory / descriptor balance measured per scenario through the allocator hooks and the fd table", G, "6/C10"),
  "C45": ("EventCore", "model_checking",
-         "Watcher phases are actions of the loop model; histories creating/freeing watchers (self/next/previous/new from inside watcher callbacks) replayed on the ASan build: which watcher ran, order relative to wait and callbacks, and the timeout reported to prepare watchers are compared.",
+         "Watcher phases are actions of the loop model; histories creating/freeing watchers (self/next/previous/new from inside watcher callbacks; watchers that add a timer, activate or delete an event in the prepare/check phase - the loop must still wait with the timeout the prepare watchers were told) replayed on the ASan build: which watcher ran, order relative to wait and callbacks, and the timeout reported to prepare watchers are compared.",
          "3 watcher slots; a watcher created inside a same-kind watcher callback runs in that iteration (code behaviour)", G, "6/C45"),
 }
 # properties not (yet) claimed: id -> reason
